@@ -222,6 +222,9 @@ func registerVfModel(e *Engine) {
 		"strings.Replace": "Replace", "strings.ReplaceAll": "ReplaceAll", "strings.TrimLeft": "TrimLeft", "strings.TrimRight": "TrimRight", "strings.Trim": "Trim",
 		"strconv.Itoa": "Itoa", "strconv.FormatInt": "FormatInt", "strconv.FormatUint": "FormatUint", "strconv.Quote": "Quote",
 		"(*sync.Pool).Get": "PoolGet", "(*sync.Pool).Put": "PoolPut",
+		"(*sync.Map).Load": "MapLoad", "(*sync.Map).Store": "MapStore", "(*sync.Map).LoadOrStore": "MapLoadOrStore", "(*sync.Map).LoadAndDelete": "MapLoadAndDelete",
+		"(*sync.Map).Delete": "MapDelete", "(*sync.Map).Range": "MapRange", "(*sync.Map).Swap": "MapSwap", "(*sync.Map).CompareAndSwap": "MapCompareAndSwap", "(*sync.Map).Clear": "MapClear",
+		"sort.SliceIsSorted": "SliceIsSorted", "sort.IsSorted": "IsSorted", "sort.StringsAreSorted": "StringsAreSorted", "sort.Ints": "Ints", "sort.IntsAreSorted": "IntsAreSorted",
 		"sort.Sort": "Sort", "sort.Slice": "Slice", "sort.Strings": "Strings", "sort.Stable": "Sort", "sort.SliceStable": "Slice",
 	}
 	for real, model := range red {
